@@ -282,12 +282,9 @@ where
         }
 
         let bold = writer.bold();
-        let span = event
-            .parent()
-            .and_then(|id| ctx.span(id))
-            .or_else(|| ctx.lookup_current());
-
-        let scope = span.into_iter().flat_map(|span| span.scope());
+        // the event's own scope: from its explicit parent if it has one, empty
+        // if it is an explicit root, from the current span otherwise
+        let scope = ctx.event_scope().into_iter().flatten();
 
         for span in scope {
             let meta = span.metadata();
